@@ -20,25 +20,31 @@ Proof. intros. apply name_eqb_eq. auto. Qed.
 Lemma name_eqb_neq : forall a b, a <> b -> name_eqb a b = false.
 Proof. intros. destruct (name_eqb a b) eqn:E; auto. apply name_eqb_eq in E. contradiction. Qed.
 
-Lemma pval_eqb_eq : forall a b, pval_eqb a b = true -> a = b.
+Lemma num_eqb_eq : forall a b, num_eqb a b = true -> a = b.
 Proof.
-  fix IH 1. intros a b. destruct a, b; simpl; try discriminate.
-  - intros H. apply Z.eqb_eq in H. congruence.
-  - reflexivity.
-  - revert l0. induction l as [|x l IHl]; intros [|y r] H; try discriminate; try reflexivity.
-    apply andb_true_iff in H as [H1 H2]. apply IH in H1. apply IHl in H2. inversion H2. subst. reflexivity.
-  - revert l0. induction l as [|[k x] l IHl]; intros [|[k' y] r] H; try discriminate; try reflexivity.
-    apply andb_true_iff in H as [H1 H2]. apply andb_true_iff in H1 as [H0 H1].
-    apply Z.eqb_eq in H0. apply IH in H1. apply IHl in H2. inversion H2. subst. reflexivity.
+  destruct a, b; simpl; try discriminate; intros H; try reflexivity; apply Z.eqb_eq in H; congruence.
 Qed.
 
+Lemma key_eqb_eq : forall a b, key_eqb a b = true -> a = b.
+Proof.
+  destruct a, b; simpl; try discriminate; intros H.
+  - f_equal. apply num_eqb_eq; auto.
+  - f_equal. apply name_eqb_eq; auto.
+Qed.
+
+(* object.Identical is equality on the modelled values *)
 Lemma cval_eqb_eq : forall a b, cval_eqb a b = true -> a = b.
 Proof.
-  intros x y. destruct x as [p|s|b|q], y as [p'|s'|b'|q']; cbn [cval_eqb]; try discriminate; intros H.
-  - f_equal. apply pval_eqb_eq; auto.
-  - f_equal. apply name_eqb_eq; auto.
-  - f_equal. apply Bool.eqb_prop; auto.
-  - f_equal. apply Z.eqb_eq; auto.
+  fix IH 1. intros x y. destruct x as [n| |s|b|l|l], y as [n'| |s'|b'|l'|l']; cbn [cval_eqb]; try discriminate.
+  - intros H. f_equal. apply num_eqb_eq; auto.
+  - reflexivity.
+  - intros H. f_equal. apply name_eqb_eq; auto.
+  - intros H. f_equal. apply Bool.eqb_prop; auto.
+  - revert l'. induction l as [|x l IHl]; intros [|y r] H; try discriminate; try reflexivity.
+    apply andb_true_iff in H as [H1 H2]. apply IH in H1. apply IHl in H2. inversion H2. subst. reflexivity.
+  - revert l'. induction l as [|[k x] l IHl]; intros [|[k' y] r] H; try discriminate; try reflexivity.
+    apply andb_true_iff in H as [H1 H2]. apply andb_true_iff in H1 as [H0 H1].
+    apply key_eqb_eq in H0. apply IH in H1. apply IHl in H2. inversion H2. subst. reflexivity.
 Qed.
 
 (* ------------------------------------------------------------------ association lists and frames *)
@@ -94,6 +100,10 @@ Section INV.
   Variable K : name.
   Variable v : cval.
   Hypothesis HKconst : constant_name K = true.
+  Variable c : ccfg.
+  Hypothesis Hct : const_test c = true.
+  Hypothesis Hcow : ccow c = true.
+  Hypothesis Hstrict : strict_eq c = true.
 
   Definition klook (f : frame) : option obj := nlookup (fstore f) K.
 
@@ -204,7 +214,7 @@ Section INV.
   Proof.
     induction e as [|f t IH]; intros; simpl in *; auto.
     destruct i; simpl in *.
-    - unfold klook at 1. simpl. rewrite nlookup_nset_same. congruence.
+    - unfold klook at 1. simpl. rewrite nlookup_nset_same. clear - H. congruence.
     - f_equal. auto.
   Qed.
 
@@ -319,8 +329,8 @@ Section INV.
 
   (* ---- Environment.CreateOrSet *)
   Lemma create_or_set_inv : forall e n w create, Inv e ->
-    Inv (fst (create_or_set e n w create)) /\ length (fst (create_or_set e n w create)) = length e /\
-    (n = K -> snd (create_or_set e n w create) = Err \/ (snd (create_or_set e n w create) = Ok w /\ w = v)).
+    Inv (fst (create_or_set c e n w create)) /\ length (fst (create_or_set c e n w create)) = length e /\
+    (n = K -> snd (create_or_set c e n w create) = Err \/ (snd (create_or_set c e n w create) = Ok w /\ w = v)).
   Proof.
     intros e n w create HI. unfold create_or_set.
     destruct (constant_name n) eqn:EC.
@@ -328,8 +338,8 @@ Section INV.
       destruct (env_get e n) as [[e1 o]|].
       + destruct HG as (HI1 & HL1 & Hnm & HK & _).
         destruct o as [old|up m]; simpl.
-        * destruct (cval_eqb old w) eqn:EQ; simpl.
-          -- apply cval_eqb_eq in EQ. subst w.
+        * destruct (same_value c old w) eqn:EQ; simpl.
+          -- unfold same_value in EQ. rewrite Hstrict in EQ. apply cval_eqb_eq in EQ. subst w.
              assert (Hold : n = K -> old = v).
              { intros E. specialize (HK E). destruct e1; [exfalso; eapply Inv_nonempty; eauto|]. simpl in HK. apply HK. }
              destruct (set_no_checks_inv e1 n old create HI1 Hold) as [H1 H2].
@@ -338,7 +348,7 @@ Section INV.
         * split; auto.
       + simpl. destruct (set_no_checks_inv e n w create HI) as [H1 H2]; [intros; contradiction|].
         split; auto. split; auto. intros; contradiction.
-    - assert (Hne : n <> K) by (intros ->; congruence).
+    - assert (Hne : n <> K) by (intros ->; rewrite HKconst in EC; discriminate).
       simpl. destruct (set_no_checks_inv e n w create HI) as [H1 H2]; [intros; contradiction|].
       split; auto. split; auto. intros; contradiction.
   Qed.
@@ -386,7 +396,7 @@ Section INV.
     - destruct HG as (HI1 & HL1 & Hnm & HK & (f & t & -> & Hlk)).
       assert (X : n = K -> deref (f :: t) o = Some v).
       { intros E. specialize (HK E). destruct o as [w|up m]; simpl in *.
-        - congruence.
+        - clear - HK. congruence.
         - unfold klook in HK. pose proof (Hnm _ _ eq_refl). subst m n.
           destruct up; simpl in *.
           + unfold klook in HK. inversion HK as [HK']. rewrite HK'. reflexivity.
@@ -400,13 +410,13 @@ Section INV.
   Qed.
 
   Lemma for_values_inv : forall n vs e last, Inv e ->
-    Inv (fst (for_values e n vs last)) /\ length (fst (for_values e n vs last)) = length e /\
-    (n = K -> snd (for_values e n vs last) = Ok v \/ snd (for_values e n vs last) = Ok last).
+    Inv (fst (for_values c e n vs last)) /\ length (fst (for_values c e n vs last)) = length e /\
+    (n = K -> snd (for_values c e n vs last) = Ok v \/ snd (for_values c e n vs last) = Ok last).
   Proof.
     induction vs as [|w t IH]; intros e last HI; simpl.
     - split; auto.
     - destruct (create_or_set_inv e n w false HI) as (H1 & L1 & _).
-      destruct (create_or_set e n w false) as [e1 r1]. simpl in *.
+      destruct (create_or_set c e n w false) as [e1 r1]. simpl in *.
       destruct (read_name_inv e1 n H1) as (H2 & L2 & R2).
       destruct (read_name e1 n) as [e2 r2]. simpl in *.
       destruct r2 as [r| | |]; try (simpl; split; [auto|split; [lia|]]; intros E; specialize (R2 E); discriminate).
@@ -415,9 +425,6 @@ Section INV.
   Qed.
 
   (* ---- one attempt.  c: the repaired code, registers on or off *)
-  Variable c : ccfg.
-  Hypothesis Hct : const_test c = true.
-  Hypothesis Hcow : ccow c = true.
 
   Definition attempt_deletes (a : attempt) : bool :=
     match a with ADelete n => name_eqb n K | _ => false end.
@@ -429,7 +436,22 @@ Section INV.
     Inv (fst (set_container c e n old nv)) /\ length (fst (set_container c e n old nv)) = length e.
   Proof.
     intros. unfold set_container. rewrite Hcow. simpl.
-    destruct (create_or_set_inv e n (CV nv) false H) as (H1 & H2 & _). auto.
+    destruct (create_or_set_inv e n nv false H) as (H1 & H2 & _). auto.
+  Qed.
+
+  Lemma eval_expr_inv : forall ex e, Inv e ->
+    Inv (fst (eval_expr e ex)) /\ length (fst (eval_expr e ex)) = length e.
+  Proof.
+    intros ex e HI.
+    assert (OV : forall y f, Inv (fst (on_value (read_name e y) f)) /\ length (fst (on_value (read_name e y) f)) = length e).
+    { intros y f. destruct (read_name_inv e y HI) as (H1 & L1 & _).
+      destruct (read_name e y) as [e1 [r| | |]]; simpl in *; auto. }
+    destruct ex; simpl; auto.
+    - destruct (read_name_inv e y HI) as (H1 & L1 & _). auto.
+    - destruct (read_name_inv (empty_frame :: e) y (Inv_push e HI)) as (H1 & L1 & _).
+      destruct (read_name (empty_frame :: e) y) as [e1 r]. simpl in *.
+      destruct e1 as [|f t]; simpl in *; [lia|]. split; [|lia].
+      eapply Inv_pop; eauto. intros ->. simpl in L1. pose proof (Inv_nonempty e HI). destruct e; simpl in *; [contradiction|lia].
   Qed.
 
   Lemma do_attempt_inv : forall a e, attempt_deletes a = false -> Inv e ->
@@ -437,44 +459,46 @@ Section INV.
   Proof.
     intros a e Hd HI. destruct a; simpl.
     - (* = and := *)
-      destruct (create_or_set_inv e n v0 define HI) as (H1 & H2 & _). auto.
+      destruct (eval_expr_inv ex e HI) as (H0 & L0).
+      destruct (eval_expr e ex) as [e0 [w| | |]]; simpl in *; auto.
+      destruct (create_or_set_inv e0 n w define H0) as (H1 & H2 & _). split; auto. lia.
     - (* ++ -- *)
       destruct (read_name_inv e n HI) as (H1 & L1 & _).
       destruct (read_name e n) as [e1 r1]. simpl in *.
       destruct r1 as [old| | |]; auto.
-      destruct old as [[z| |l0|l0]|s0|b0|q]; simpl; auto;
+      destruct old as [[z|q|]| |s0|b0|l0|l0]; simpl; auto;
       try (destruct (int64_ok (z + delta)); simpl; auto);
-      match goal with |- context [create_or_set e1 n ?w false] =>
+      match goal with |- context [create_or_set c e1 n ?w false] =>
         destruct (create_or_set_inv e1 n w false H1) as (H2 & L2 & _);
-        destruct (create_or_set e1 n w false) as [e2 r2]; simpl in *; split; auto; lia end.
+        destruct (create_or_set c e1 n w false) as [e2 r2]; simpl in *; split; auto; lia end.
     - (* n[i] = v *)
       destruct (read_name_inv e n HI) as (H1 & L1 & _).
       destruct (read_name e n) as [e1 r1]. simpl in *.
-      destruct r1 as [[xv| | |]| | |]; auto.
-      destruct (p_idx_set xv i v0) as [nv| | |]; auto.
+      destruct r1 as [xv| | |]; auto.
+      destruct (x_idx_set xv k v0) as [nv| | |]; auto.
       destruct (set_container_inv e1 n xv nv H1) as (H2 & L2).
       destruct (set_container c e1 n xv nv) as [e2 r2]. simpl in *. split; auto. lia.
     - (* del(n[k]) *)
       pose proof (env_get_inv e n HI) as HG.
       destruct (env_get e n) as [[e1 o]|]; auto.
       destruct HG as (H1 & L1 & _).
-      destruct (deref e1 o) as [[[| |l|l]| | |]|]; auto.
-      destruct (kv_del l k) as [l'|]; auto.
-      destruct (set_container_inv e1 n (PMap l) (PMap l') H1) as (H2 & L2).
-      destruct (set_container c e1 n (PMap l) (PMap l')) as [e2 r2]. simpl in *. split; auto. lia.
+      destruct (deref e1 o) as [[| | | | |l]|]; auto.
+      destruct (xmap_del l k) as [l'|]; auto.
+      destruct (set_container_inv e1 n (XMap l) (XMap l') H1) as (H2 & L2).
+      destruct (set_container c e1 n (XMap l) (XMap l')) as [e2 r2]. simpl in *. split; auto. lia.
     - (* del(n), n <> K *)
       simpl in Hd. assert (Hn : n <> K) by (intros ->; rewrite name_eqb_refl in Hd; discriminate).
       destruct (env_delete_inv e n Hn HI) as (H1 & L1).
       destruct (env_delete e n) as [e1 b0]. simpl in *. auto.
     - (* for n = a:b *)
       destruct (b <? a)%Z; auto. destruct (reg_bound c n); auto.
-      destruct (for_values_inv n (int_range a (Z.to_nat (b - a))) e (CV PNil) HI) as (H1 & L1 & _). auto.
+      destruct (for_values_inv n (int_range a (Z.to_nat (b - a))) e XNil HI) as (H1 & L1 & _). auto.
     - (* for n = [..] *)
-      destruct (for_values_inv n (map CV l) e (CV PNil) HI) as (H1 & L1 & _). auto.
+      destruct (for_values_inv n l e XNil HI) as (H1 & L1 & _). auto.
     - (* func(n){n}(v) *)
       destruct (is_int v0 && reg_bound c n); auto.
       destruct (create_or_set_inv (empty_frame :: e) n v0 true (Inv_push e HI)) as (H1 & L1 & _).
-      destruct (create_or_set (empty_frame :: e) n v0 true) as [e1 r1]. simpl in *.
+      destruct (create_or_set c (empty_frame :: e) n v0 true) as [e1 r1]. simpl in *.
       assert (Hpop : forall e2, Inv e2 -> length e2 = S (length e) -> Inv (tl e2) /\ length (tl e2) = length e).
       { intros e2 HI2 HL2. destruct e2 as [|f t]; simpl in *; [lia|]. split; [|lia].
         eapply Inv_pop; eauto. intros ->. simpl in HL2. pose proof (Inv_nonempty e HI). destruct e; simpl in *; [contradiction|lia]. }
@@ -541,26 +565,26 @@ Section INV.
 
   Lemma shadow_attempt_value : forall e a, Inv e ->
     (exists w, a = ACall K w) \/ (exists x y, a = AForInt K x y) \/ (exists l, a = AForList K l) ->
-    snd (do_attempt c e a) = Err \/ snd (do_attempt c e a) = Ok v \/ snd (do_attempt c e a) = Ok (CV PNil).
+    snd (do_attempt c e a) = Err \/ snd (do_attempt c e a) = Ok v \/ snd (do_attempt c e a) = Ok XNil.
   Proof.
     intros e a HI [[w ->]|[[x [y ->]]|[l ->]]]; simpl.
     - rewrite reg_bound_K, andb_false_r.
       destruct (create_or_set_inv (empty_frame :: e) K w true (Inv_push e HI)) as (H1 & L1 & R1).
-      destruct (create_or_set (empty_frame :: e) K w true) as [e1 r1]. simpl in *.
+      destruct (create_or_set c (empty_frame :: e) K w true) as [e1 r1]. simpl in *.
       destruct (R1 eq_refl) as [->|[-> ->]]; simpl; auto.
       destruct (read_name_inv e1 K H1) as (_ & _ & R2).
       destruct (read_name e1 K) as [e2 r2]. simpl in *. rewrite (R2 eq_refl). auto.
     - destruct (y <? x)%Z; auto. rewrite reg_bound_K.
-      destruct (for_values_inv K (int_range x (Z.to_nat (y - x))) e (CV PNil) HI) as (_ & _ & R).
+      destruct (for_values_inv K (int_range x (Z.to_nat (y - x))) e XNil HI) as (_ & _ & R).
       destruct (R eq_refl) as [->| ->]; auto.
-    - destruct (for_values_inv K (map CV l) e (CV PNil) HI) as (_ & _ & R).
+    - destruct (for_values_inv K l e XNil HI) as (_ & _ & R).
       destruct (R eq_refl) as [->| ->]; auto.
   Qed.
   Definition shadowing (a : attempt) : Prop :=
     (exists w, a = ACall K w) \/ (exists x y, a = AForInt K x y) \/ (exists l, a = AForList K l).
 
   Lemma shadow_event_value : forall e s a, Inv e -> length e = 1 -> shadowing a ->
-    let r := snd (run_event c e (Ev s a)) in r = Err \/ r = Ok v \/ r = Ok (CV PNil).
+    let r := snd (run_event c e (Ev s a)) in r = Err \/ r = Ok v \/ r = Ok XNil.
   Proof.
     intros e s a HI HL Ha.
     assert (Hnd : attempt_deletes a = false) by (destruct Ha as [[w ->]|[[x [y ->]]|[l ->]]]; reflexivity).
@@ -595,39 +619,39 @@ Proof.
 Qed.
 
 (* the binding itself: registers on or off, with or without the constant test on the register paths *)
-Lemma constant_stable : forall c, ccow c = true ->
+Lemma constant_stable : forall c, ccow c = true -> strict_eq c = true ->
   forall (K : name) (v : cval) (evs : list event) (e : env),
   constant_name K = true -> root_wf e -> root_value e K = Some v ->
   forallb (fun ev => negb (event_deletes_name K ev)) evs = true ->
   root_value (run_events c e evs) K = Some v.
 Proof.
-  intros c Hcow K v evs e HK (s & -> & Hs) Hv Hd.
-  destruct (run_events_inv K v HK c Hcow evs _ Hd (root_inv K v s Hs Hv)) as (H1 & L1).
+  intros c Hcow Hst K v evs e HK (s & -> & Hs) Hv Hd.
+  destruct (run_events_inv K v HK c Hcow Hst evs _ Hd (root_inv K v s Hs Hv)) as (H1 & L1).
   apply Inv_root; auto.
 Qed.
 
 (* reading the name, at top level or from a nested function or loop *)
-Lemma constant_read_stable : forall c, ccow c = true ->
+Lemma constant_read_stable : forall c, ccow c = true -> strict_eq c = true ->
   forall (K : name) (v : cval) (evs : list event) (e : env) (s : scope),
   constant_name K = true -> root_wf e -> root_value e K = Some v ->
   forallb (fun ev => negb (event_deletes_name K ev)) evs = true ->
   snd (run_event c (run_events c e evs) (Ev s (ARead K))) = Ok v.
 Proof.
-  intros c Hcow K v evs e sc HK (s & -> & Hs) Hv Hd.
-  destruct (run_events_inv K v HK c Hcow evs _ Hd (root_inv K v s Hs Hv)) as (H1 & L1).
+  intros c Hcow Hst K v evs e sc HK (s & -> & Hs) Hv Hd.
+  destruct (run_events_inv K v HK c Hcow Hst evs _ Hd (root_inv K v s Hs Hv)) as (H1 & L1).
   apply read_event_value; auto.
 Qed.
 
 (* using the name as a parameter or as a loop variable never makes it evaluate to something else: the attempt
    fails, or what the body reads is the constant's value (nil: a loop that did not iterate) *)
-Lemma constant_not_shadowed : forall c, const_test c = true -> ccow c = true ->
+Lemma constant_not_shadowed : forall c, const_test c = true -> ccow c = true -> strict_eq c = true ->
   forall (K : name) (v : cval) (evs : list event) (e : env) (s : scope) (a : attempt),
   constant_name K = true -> root_wf e -> root_value e K = Some v ->
   forallb (fun ev => negb (event_deletes_name K ev)) evs = true ->
   shadowing K a ->
-  let r := snd (run_event c (run_events c e evs) (Ev s a)) in r = Err \/ r = Ok v \/ r = Ok (CV PNil).
+  let r := snd (run_event c (run_events c e evs) (Ev s a)) in r = Err \/ r = Ok v \/ r = Ok XNil.
 Proof.
-  intros c Hct Hcow K v evs e sc a HK (s & -> & Hs) Hv Hd Ha.
-  destruct (run_events_inv K v HK c Hcow evs _ Hd (root_inv K v s Hs Hv)) as (H1 & L1).
-  apply (shadow_event_value K v HK c Hct Hcow _ sc a H1 L1 Ha).
+  intros c Hct Hcow Hst K v evs e sc a HK (s & -> & Hs) Hv Hd Ha.
+  destruct (run_events_inv K v HK c Hcow Hst evs _ Hd (root_inv K v s Hs Hv)) as (H1 & L1).
+  apply (shadow_event_value K v HK c Hct Hcow Hst _ sc a H1 L1 Ha).
 Qed.
